@@ -42,4 +42,20 @@ if __name__ == "__main__":
         o = getattr(m, owner) if owner else m
         for n in names:
             consts[("%s.%s" % (owner, n)) if owner else n] = jsonable(getattr(o, n))
-    json.dump(dict(consts=consts), open(a.out, "w"), indent=1)
+    flows = {}
+    if api.REG.flow_files:
+        from nemoguardrails.colang import parse_colang_file
+        for rel, version in api.REG.flow_files:
+            src = open(os.path.join(REPO, rel), encoding="utf-8").read()
+            parsed = parse_colang_file(os.path.basename(rel), content=src, version=version)
+            out = {}
+            for f in parsed["flows"]:
+                els = f["elements"] if isinstance(f, dict) else None
+                if els is None:
+                    continue
+                clean = []
+                for e in els:
+                    clean.append({k: v for k, v in e.items() if k != "_source_mapping"})
+                out[f["id"]] = dict(elements=clean, source_code=f.get("source_code", ""))
+            flows["%s@%s" % (rel, version)] = out
+    json.dump(dict(consts=consts, flows=flows), open(a.out, "w"), indent=1, default=str)
